@@ -1043,6 +1043,16 @@ def correspondence(ctx, C, obs):
         exprs.append((cid, expr))
         meta[cid] = (what, detail)
     gl_tables = {}
+    # every scheduled rule-extraction job must have produced a rule: a missing / failed one is reported, never dropped
+    for ck in C.checks:
+        if ck["kind"] in ("rule1_simpson", "rule2_simpson", "gl_rule", "gl_transfer", "gl_rule2", "gl_small_degree"):
+            o = obs.get(ck["id"])
+            if not (o and o.get("ok")):
+                why = "no observation" if not o else (o.get("kind") if o.get("kind") in ("timeout", "harness_crash", "job_panic") else "panic: " + str(o.get("panic"))[:120])
+                ctx.violation("S4", f"rule extraction {ck['kind']} (job {ck['id']}) produced no rule: {why}",
+                              {"kind": "extraction_failed", "what": ck["kind"]},
+                              {"check": {kk: vv for kk, vv in ck.items() if kk != "c"}, "job": job_of(C, ck["id"]), "observation": o},
+                              found_input=False)
     for ck in C.checks:
         k = ck["kind"]
         o = obs.get(ck.get("id", ""))
@@ -1157,6 +1167,11 @@ def correspondence(ctx, C, obs):
             add("mB_" + ck["id"], f"(vclose {qlit(Fraction(TOL12 * S))} (simpson_adaptive_2d Qops {fq} {args}) {cqlit(fval_of(o))} && "
                                   f"(negb (Nat.eqb {calls2(e0)} {calls2(e0 * Fraction(1023, 1024))} && Nat.eqb {calls2(e0)} {calls2(e0 * Fraction(1025, 1024))}) || "
                                   f"Nat.eqb {calls2(e0)} {o['evals']}))%bool", "model_asimp2d", ck)
+    scheduled_gl = sorted(ck["n"] for ck in C.checks if ck["kind"] == "gl_rule")
+    if sorted(gl_tables) != scheduled_gl:
+        ctx.violation("S4", f"Gauss-Legendre rules were extracted for {len(gl_tables)} of the {len(scheduled_gl)} scheduled orders "
+                            f"(missing: {sorted(set(scheduled_gl) - set(gl_tables))[:10]}): their certificates cannot be checked",
+                      {"kind": "extraction_failed", "what": "gl_tables"}, {"missing": sorted(set(scheduled_gl) - set(gl_tables))}, found_input=False)
     res = run_compute_cases(ctx, "C12", IMPORTS, "", exprs, shards=min(NCPU, max(1, len(exprs) // 12)))
     ctx.cov["obligations"] += len(exprs)
     nbad = 0
@@ -1183,6 +1198,10 @@ def correspondence(ctx, C, obs):
             ctx.cov["discharged"] += 1
             continue
         nbad += 1
+        if txt is None:
+            ctx.violation("S4", f"{what}: model evaluation {cid} has no coqc verdict (shard crashed or timed out): unchecked",
+                          {"kind": "unchecked", "what": what}, {"case": cid}, found_input=False)
+            continue
         short = {kk: (vv.desc() if hasattr(vv, "desc") else vv) for kk, vv in ck.items() if kk not in ("c",)}
         ctx.case_failures.append({"case": cid, "kind": what, "result": txt})
         ctx.violation("S4", f"{what}: the translated/modelled kernel run over Q disagrees with the implementation (case {cid}: {str(txt)[:60]})",
